@@ -27,7 +27,8 @@ The real middleware classes are executed; nothing is mocked below them.  Kinds o
       every history of 0..2 (first table and thorough: 0..3) requests over {GET to three mounts, GET without a mount,
       websocket handshake}, each on its own connection, then shutdown.
   red    HTTPToHTTPSRedirectMiddleware called directly: request host x configured host x raw path (escapes, "//",
-      ";", ":") x query x root_path x scope kind {http 1.1, http 2, https, ws 1.1, ws 2, ws without the denial-response
+      ";", ":"; and paths RELATED to the root_path values: equal to one, starting with its characters at / not at a segment
+      boundary, containing it later, one repeated) x query x root_path {"", "/app", "/v1"} x scope kind {http 1.1, http 2, https, ws 1.1, ws 2, ws without the denial-response
       extension, wss, lifespan}; request host includes "no Host header" (then only with a configured host).
   redh   request HISTORIES through ONE redirect instance: configured host {None, set} x every pair over a 47 / 57-request
       alphabet (7 scope kinds x {3 Host values, no Host} x 2 URL shapes, + lifespan; no-Host cleartext requests only with
@@ -36,7 +37,15 @@ The real middleware classes are executed; nothing is mocked below them.  Kinds o
       scripted apps drawn from {completes behind gates, completes at once, startup.failed, never completes, raises
       at once, raises after its gate, raises after startup, returns without shutdown.complete}; every release order
       of the gates, the shutdown trigger and timer ticks interleaved within (M, S, R).
-  e2e    a few requests through the real TCPServer (h1, ws/h1) with each middleware mounted, both engines.
+  fanx   the dispatcher's lifespan fan-out when the server's SHUTDOWN OVERTAKES a mount's startup.  hypercorn's own
+      worker_serve never produces that order (it sends lifespan.shutdown only after startup.complete; a startup timeout
+      makes it raise), so the dispatcher - running in the real engines, hosted by the lifespan task of the real
+      worker_serve - is driven by a stand-in ASGI server that sends lifespan.startup at once and lifespan.shutdown when
+      its gate is released, whatever has been forwarded by then.  Mounts: {startup.complete and shutdown.complete each
+      behind a gate, startup behind a gate only, no gates}; every pair, some / all triples; Explorer A interleaves the
+      releases of all gates (also mid-flight) within (M, S, R).
+  e2e    a few requests through the real TCPServer (h1, ws/h1) with each middleware mounted, both engines; the redirect
+      also with a configured root_path (the request target never contains it, the Location does).
 
 Every request of a history is judged by the single-request oracle (reference rule), and additionally by the
 differential oracle "what request r gives after history h == what r gives on an instance without a past".
@@ -88,7 +97,8 @@ TECHNIQUE = ("bounded exhaustive enumeration of header multisets / mount tables 
              "object-graph comparison of the caller's scope (identity of containers, value of leaves) around every call "
              "with an inner application that mutates its own scope; stateless "
              "deviation-bounded exploration (CHESS-style) of the dispatcher's lifespan fan-out inside the real "
-             "worker_serve on a virtual-time loop (asyncio) and instrumented trio")
+             "worker_serve on a virtual-time loop (asyncio) and instrumented trio, and of the fan-out driven by a stand-in "
+             "ASGI server whose lifespan.shutdown may overtake the gated startup of a mount")
 RULE = ("one evaluation = one case (header multiset + hops + prefix; mount table + path; URL + scope kind), one request "
         "history of 1..3 requests through one instance, or one "
         "interleaving of gate releases / shutdown / ticks for the fan-out; distinct by digest of what the wrapped "
@@ -110,16 +120,21 @@ ASSUMPTIONS = [
     "middlewares pass the caller's scope object through by design",
     "fan-out: judged at the ASGI messages the middleware sends to the server (mount-raised exceptions, which the server "
     "treats as 'lifespan unsupported', are not 'complete' messages)",
+    "fanx: an ASGI server may send lifespan.shutdown although it has not seen lifespan.startup.complete (it stopped "
+    "waiting); hypercorn's own servers never do, so this family judges the middleware as a component under another "
+    "server; the mounts are well-behaved (each sends startup.complete, then after lifespan.shutdown shutdown.complete)",
     "environment model (fake transport, virtual loop) is bound to real sockets by ./check selftest",
 ]
 BOUNDS_DOC = {"quick": "n<=3 items, hops 0..3 (no-Host requests: n<=2); histories: all pairs over the full request alphabets "
                        "(31 ProxyFix, 47/57 redirect, 12 dispatcher x 40 mount tables) + all triples over sub-alphabets "
                        "(10, 10/13, 7); serve-level dispatcher histories <=2 (one table <=3) requests; fan-out: all 64 "
-                       "program pairs + 5 selected triples, M<=1,S<=2,R=0",
+                       "program pairs + 5 selected triples, M<=1,S<=2,R=0; fanx: all 9 pairs M<=2,S<=3 (trio R<=1) + 2 triples "
+                       "M<=1,S<=2; redirect: 27 paths x 3 root_paths x 5 queries x 5 hosts x 2 configured hosts x 8 scope kinds",
               "thorough": "n<=4 items, hops 0..4 (no-Host requests: n<=3); histories: all pairs and all triples over the full "
                           "alphabets; serve-level dispatcher histories <=3 requests on 3 mount tables; fan-out: all 64 "
-                          "program pairs at M<=2,S<=3 (trio R<=1), all 512 triples at M<=1,S<=2"}
-BUDGET = {"quick": 100, "thorough": 1150}
+                          "program pairs at M<=2,S<=3 (trio R<=1), all 512 triples at M<=1,S<=2; fanx: all 9 pairs "
+                          "M<=3,S<=4 (trio R<=2), all 27 triples M<=1,S<=2 (trio R<=1); redirect as quick"}
+BUDGET = {"quick": 300, "thorough": 1150}
 MAX_EXEC_PER_ITEM = 60000
 
 
@@ -724,9 +739,13 @@ def do_disph(case: tuple) -> ExecResult:
 R_HOSTS = [b"example.com", b"example.com:8080", b"[::1]:8000", b"EXAMPLE.com", None]  # None: request without Host / :authority
 R_CONF = [None, "secure.example"]
 R_PATHS = [b"/", b"/abc", b"/abc%3C", b"/a%2Fb", b"//evil.example/x", b"/a//b", b"/a/", b"/a;p=1", b"/a:b", b"/~u/",
-           b"/a+b", b"/%E2%82%AC", b"/a/../b", b"/@evil.example"]
+           b"/a+b", b"/%E2%82%AC", b"/a/../b", b"/@evil.example",
+           # relative to the root_path values: equal to one, starting with one (at a segment boundary or not), one
+           # repeated, one later in the path, the two nested either way
+           b"/app", b"/app/", b"/app/x", b"/apple", b"/app/app/x", b"/x/app", b"/x/app/y", b"/v1", b"/v1/v1/users", b"/v10/u",
+           b"/api/v1/x", b"/app/v1", b"/v1/app/x"]
 R_QUERIES = [b"", b"a=b", b"a=b&c=d%20e", b"x=/?y", b"next=//evil.example"]
-R_ROOTS = ["", "/app"]
+R_ROOTS = ["", "/app", "/v1"]
 R_KINDS = ["http1", "http2", "https", "ws1", "ws2", "ws-noext", "wss", "lifespan"]
 R_SECURE = ("https", "wss", "lifespan")
 
@@ -790,7 +809,8 @@ def red_request(mw: Any, inner: Recorder, ci: int, req: tuple) -> Tuple[List[dic
             locs = [v for n, v in start.get("headers", []) if n.lower() == b"location"]
             wants = [ref.redirect_expect(s, want_host, root, raw_path, query) for s in schemes]
             if len(locs) != 1 or locs[0] not in wants:
-                viol.append(V("redirect-location", f"{kind}:url", f"{locs} wanted {wants[0]}"))
+                viol.append(V("redirect-location", f"{kind}:url" + (":root_path" if root else ""),
+                              f"root_path {root!r} raw_path {raw_path!r}: {locs} wanted {wants[0]}"))
     obs = (kind, len(inner.calls), tuple((m.get("type"), m.get("status"), tuple(m.get("headers", []))) for m in box.messages))
     return viol, obs
 
@@ -964,6 +984,113 @@ def do_fan(params: tuple, prefix: List[int]) -> ExecResult:
 
 
 # ---------------------------------------------------------------------------------------------
+# lifespan fan-out when the server's shutdown OVERTAKES a mount's startup (Explorer A, both engines)
+#
+# Inside hypercorn's own worker_serve this order cannot occur: the server sends lifespan.shutdown only after
+# lifespan.startup.complete arrived (a startup timeout makes worker_serve raise, nothing more is sent).  The dispatcher is
+# an ASGI middleware, though, and the property speaks about it ("startup/shutdown complete only when every mount has
+# completed"): here it runs in the real engines (the asyncio TaskGroup / trio nursery and channels it creates are real,
+# hosted by the lifespan task of the real worker_serve) but is DRIVEN by a stand-in for an ASGI server that stops
+# waiting for startup: it sends lifespan.startup at once and lifespan.shutdown when the gate "quit" is released -
+# whether or not startup.complete was forwarded by then.  Mounts gate their startup.complete (s<i>) and / or their
+# shutdown.complete (z<i>); Explorer A interleaves the releases of all gates.
+
+FANX_PROGRAMS = ["ok", "now", "gs"]
+
+
+def fanx_program(name: str, m: int) -> list:
+    if name == "gs":  # startup behind a gate, shutdown acknowledged at once
+        return [("recv",), ("gate", f"s{m}"), ("send", STARTUP_OK), ("recv",), ("send", SHUTDOWN_OK)]
+    return fan_program(name, m)
+
+
+class ImpatientServer:
+    """Towards its host (hypercorn's Lifespan) a lifespan application that starts at once; towards the dispatcher the
+    ASGI server: lifespan.startup immediately, lifespan.shutdown once the gate 'quit' is released."""
+
+    def __init__(self, world: Any, app: Any) -> None:
+        self.world = world
+        self.app = app
+
+    async def __call__(self, scope: dict, receive: Any, send: Any) -> None:
+        from mc.core import Instance
+
+        if scope["type"] != "lifespan":
+            return await self.app(scope, receive, send)
+        w = self.world
+        await receive()
+        await send(dict(STARTUP_OK))
+        me = Instance(-1, {"type": "lifespan"}, w.now())  # (only carries the gate the stand-in is parked at)
+        calls = [0]
+
+        async def server_receive() -> dict:
+            calls[0] += 1
+            if calls[0] == 1:
+                if not w.finished:
+                    w.fanlog.append(("server", None, "lifespan.startup"))
+                return {"type": "lifespan.startup"}
+            await w.wait_gate(me, "quit" if calls[0] == 2 else "never")
+            if not w.finished:
+                w.fanlog.append(("server", None, "lifespan.shutdown"))
+            return {"type": "lifespan.shutdown"}
+
+        async def server_send(message: dict) -> None:
+            if not w.finished:
+                w.fanlog.append(("outer", None, message.get("type")))
+
+        await self.app({"type": "lifespan", "asgi": dict(scope["asgi"]), "state": {}}, server_receive, server_send)
+        if not w.finished:
+            w.fanlog.append(("server", None, "dispatcher-returned"))
+        await receive()  # the host never shuts down in these scenarios: parked until the world ends
+
+
+def fanx_build(params: tuple) -> Tuple[str, dict]:
+    _, engine, programs = params
+    paths = ["/m%d" % i for i in range(len(programs))]
+
+    def factory(world: Any) -> Any:
+        from hypercorn.app_wrappers import ASGIWrapper
+        from hypercorn.middleware.dispatcher import AsyncioDispatcherMiddleware, TrioDispatcherMiddleware
+
+        world.fanlog = []
+        mounts = {}
+        for i, (p, prog) in enumerate(zip(paths, programs)):
+            mounts[p] = MountApp(world, {"lifespan": fanx_program(prog, i), "*": [("recv_until_disconnect",)]}, i)
+        cls = AsyncioDispatcherMiddleware if engine == "asyncio" else TrioDispatcherMiddleware
+        return ASGIWrapper(ImpatientServer(world, cls(mounts)))
+
+    sources = []
+    for i, prog in enumerate(programs):
+        evs = {"ok": [("release", f"s{i}"), ("release", f"z{i}")], "gs": [("release", f"s{i}")], "now": []}[prog]
+        if evs:
+            sources.append(("m%d" % i, evs))
+    sources.append(("server", [("release", "quit")]))
+    sc = {"level": "serve", "app_factory": factory, "client_factory": make_client, "sources": sources, "trio_rev": True,
+          "config": {"startup_timeout": 7, "shutdown_timeout": 3, "graceful_timeout": 2}, "randint": None}
+    return engine, sc
+
+
+def do_fanx(params: tuple, prefix: List[int]) -> ExecResult:
+    engine, sc = fanx_build(params)
+    w = run_world(engine, sc, prefix)
+    _, _, programs = params
+    viol = generic_violations(w) + fan_oracle(w, ("fanx", engine + ":impatient-server", programs))
+    # every gate was released and the world ran to quiescence: all mounts have completed both phases
+    sent = {(m, t) for who, m, t in w.fanlog if who == "mount"}
+    if not any(t == "dispatcher-returned" for who, _, t in w.fanlog if who == "server"):
+        viol.append(V("harness-problem", f"{engine}:fanx:history-incomplete", f"programs {programs} log {w.fanlog}"))
+    elif len(sent) != 2 * len(programs):
+        viol.append(V("harness-problem", f"{engine}:fanx:mount-messages", f"programs {programs} log {w.fanlog}"))
+    if os.environ.get("MC_VERBOSE"):
+        describe(w)
+        print("fan-out log:", w.fanlog)
+    obs = (default_observation(w), tuple(w.fanlog))
+    choices = w.chooser.choices
+    sample = {"params": repr(params), "choices": choices[:40], "fanlog": [list(map(str, x)) for x in w.fanlog][:14]}
+    return ExecResult(w.chooser.trace, viol, digest(obs), bool(w.instances) and any(choices), w.sigs, sample)
+
+
+# ---------------------------------------------------------------------------------------------
 # end to end through the real TCPServer
 
 OK_APP = [("recv_body",), ("send", {"type": "http.response.start", "status": 200, "headers": [(b"content-length", b"2")]}),
@@ -983,12 +1110,18 @@ E2E = [
     ("pf2", "ws/h1", b"/p", ((b"X-Forwarded-For", b"1.1.1.1"),), ("scope", None, None, None)),
     ("red", "h1", b"/x%20y?a=b", (), ("location", b"https://hypercorn/x%20y?a=b")),
     ("red", "ws/h1", b"/x?a=b", (), ("location", b"wss://hypercorn/x?a=b")),
+    # configured root_path: the request target never contains it, the redirect target does
+    ("red", "h1", b"/app/x?a=b", (), ("location", b"https://hypercorn/app/app/x?a=b"), {"root_path": "/app"}),
+    ("red", "h1", b"/apple", (), ("location", b"https://hypercorn/app/apple"), {"root_path": "/app"}),
+    ("red", "ws/h1", b"/v1/v1/users?a=b", (), ("location", b"wss://hypercorn/v1/v1/v1/users?a=b"), {"root_path": "/v1"}),
+    ("red", "h1", b"/x/app", (), ("location", b"https://hypercorn/app/x/app"), {"root_path": "/app"}),
 ]
 
 
 def e2e_build(params: tuple) -> Tuple[str, dict]:
     _, engine, idx = params
-    mwname, carrier, target, extra, _ = E2E[idx]
+    mwname, carrier, target, extra = E2E[idx][:4]
+    extra_config = E2E[idx][5] if len(E2E[idx]) > 5 else {}
 
     def factory(world: Any) -> Any:
         from hypercorn.app_wrappers import ASGIWrapper
@@ -1012,13 +1145,14 @@ def e2e_build(params: tuple) -> Tuple[str, dict]:
     else:
         data = ws_h1_handshake(target, list(extra))
     sc = {"level": "conn", "conns": {0: {"carrier": carrier}}, "client_factory": make_client, "app_factory": factory,
-          "config": {"keep_alive_timeout": 5}, "sources": [("client", [("data", 0, data)])], "trio_rev": False}
+          "config": dict({"keep_alive_timeout": 5}, **extra_config), "sources": [("client", [("data", 0, data)])],
+          "trio_rev": False}
     return engine, sc
 
 
 def do_e2e(params: tuple, prefix: List[int]) -> ExecResult:
     _, engine, idx = params
-    mwname, carrier, target, extra, expect = E2E[idx]
+    mwname, carrier, target, extra, expect = E2E[idx][:5]
     eng, sc = e2e_build(params)
     w = run_world(eng, sc, prefix)
     viol = generic_violations(w)
@@ -1181,6 +1315,7 @@ def scenarios(tier: str) -> List[Any]:
         progs3 = list(itertools.product(FAN_PROGRAMS, repeat=3))
     for engine in ("asyncio", "trio"):
         fams += [("fan", engine, p) for p in progs2 + progs3]
+        fams += [("fanx", engine, p) for p in fanx_tables(tier)]
         fams += [("e2e", engine, i) for i in range(len(E2E))]
         for ti in range(len(DS_TABLES)):
             nreq = range(len(DS_REQS))
@@ -1189,6 +1324,14 @@ def scenarios(tier: str) -> List[Any]:
                 hists += list(itertools.product(nreq, repeat=3))
             fams += [("ds", engine, ti, h) for h in hists]
     return fams
+
+
+def fanx_tables(tier: str) -> List[tuple]:
+    pairs = list(itertools.product(FANX_PROGRAMS, repeat=2))
+    triples = list(itertools.product(FANX_PROGRAMS, repeat=3))
+    if tier == "quick":
+        triples = [("ok", "now", "gs"), ("gs", "gs", "now")]
+    return pairs + triples
 
 
 def cases(fam: tuple, tier: str) -> List[tuple]:
@@ -1239,6 +1382,11 @@ def cases(fam: tuple, tier: str) -> List[tuple]:
 def bounds(tier: str, params: Any) -> dict:
     if params[0] in ("e2e", "ds"):
         return {"M": 0, "S": 0, "R": 0}
+    if params[0] == "fanx":  # (small worlds: 3-6 events)
+        r = 1 if params[1] == "trio" else 0
+        if len(params[2]) > 2:
+            return {"M": 1, "S": 2, "R": r}
+        return {"M": 2, "S": 3, "R": r} if tier == "quick" else {"M": 3, "S": 4, "R": 2 * r}
     if tier == "quick" or len(params[2]) > 2:
         return {"M": 1, "S": 2, "R": 0}
     return {"M": 2, "S": 3, "R": 1 if params[1] == "trio" else 0}
@@ -1254,6 +1402,8 @@ def execute(params: Any, prefix: List[int]) -> ExecResult:
         return do_fan(params, prefix)
     if params[0] == "e2e":
         return do_e2e(params, prefix)
+    if params[0] == "fanx":
+        return do_fanx(params, prefix)
     if params[0] == "ds":
         return do_ds(params, prefix)
     try:
@@ -1271,7 +1421,7 @@ def _tuplify(o: Any) -> Any:
 
 
 def explore_item_custom(params: Any, tier: str, deadline: float) -> dict:
-    if params[0] in ("fan", "e2e", "ds"):
+    if params[0] in ("fan", "fanx", "e2e", "ds"):
         seen: set = set()
 
         def once(p: Any, prefix: List[int]) -> ExecResult:
